@@ -12,7 +12,7 @@ from impl import project as PR
 ID = "C14"
 LEAN_TARGETS = ["CLModel.Props.C14"]
 # the composed model (FiltM) also follows paths/matcher.py: a change there raises this check's search budget too
-EXTRA_FILES = ("compare_locales/paths/matcher.py",)
+EXTRA_FILES = ("compare_locales/paths/matcher.py", "compare_locales/paths/configparser.py")
 M = "CLModel.Props.C14"
 THEOREMS = [
     (M, "C14.filter_spec", "config.filter (loop, break, action sets, early returns, cache) = reference interpreter of the documented semantics, for every configuration tree, file and key"),
@@ -57,10 +57,51 @@ THEOREMS = [
     (M, "C14.star_rule_last_wins", "a rule dir/*.ext at the end of the rule list decides dir/x.ext for every '/'-free x"),
     (M, "C14.star_rule_stops_at_slash", "dir/*.ext as the only rule: dir/x.ext with a '/' in x gets the default error"),
     (M, "C14.ExamplesM.lazy_witness", "negation witness: a raising rule before the applicable one is never consulted (code returns, eager instantiation raises); after it the code raises"),
+    # ---- round 4: filter ∘ Observer ∘ ContentComparer at every quiet level
+    (M, "C14.notify_verdict_quiet_free", "Observer.notify returns the filter's verdict and makes the same summary / error-flag increments whatever the quiet level, for every category (the filter is consulted before quiet is looked at)"),
+    (M, "C14.notify_project_verdict", "Observer(quiet, filter=config.filter).notify returns config.filter(file) for file categories and config.filter(file, key) otherwise = the reference verdict, at every quiet level"),
+    (M, "C14.list_notify_quiet_free", "ObserverList.notify (what ContentComparer acts on) returns the most severe of the filters' answers whatever the quiet levels"),
+    (M, "C14.compareq_quiet_free", "ContentComparer(q) vs ContentComparer(q') over the same keys: missing / missing_w / report / obsolete, the keys handed to merge, every verdict returned by notify, all summaries and error flags are equal"),
+    (M, "C14.compareq_details_monotone", "raising quiet only removes listed details (own observer and every project observer, per path)"),
+    (M, "C14.compareq_total", "the key loop + updateStats never raises on a modelled file (the assert in ObserverList.notify cannot fail) and yields the closed form"),
+    (M, "C14.compareq_counts", "one project configuration, any quiet: missing = #error keys, report = #warning keys, merged = the error keys in order, missing_w = their words, obsolete = #obsolete keys not ignored"),
+    (M, "C14.compareq_ignored_keys", "any quiet: a key whose verdict is not error is not merged, missing = len(merged), missing + report <= #missing keys, obsolete <= #obsolete keys"),
+    (M, "C14.files_quiet_free", "ContentComparer.add / .remove (missing / obsolete FILE): the file verdict returned by notify and the counts reaching the summaries do not depend on quiet; an ignored missing file is not counted"),
+    (M, "C14.compareq_refines_missing", "the round-0 model compareMissing (quiet 0, missing keys only) is the restriction of the full Observer/ContentComparer model, at every quiet level"),
+    # ---- round 4: laziness exactly
+    (M, "C14.first_decisive_spec", "firstD = first answer that is not `ok false`; a decisive answer comes out iff it follows a prefix of `ok false` answers, whatever comes after"),
+    (M, "C14.covered_test_lazy", "any(p.match(fullpath) is not None for p in cached.l10n_paths) = first decisive answer of the l10n matchers in order"),
+    (M, "C14.rule_scan_lazy", "the reverse rule scan as an equivalence: returns a iff a rule tests true after only-false tests of the LATER rules (or none applies: error); raises e iff such a test raises e; earlier rules are never consulted; the path is consulted before the key"),
+    (M, "C14.cache_is_eager", "cache(locale): with_env for every enabled l10n matcher, then for every rule, in order, before any match"),
+    (M, "C14.excludes_lazy_includes_eager", "excludes: first decisive answer of exclude.filter(file) == 'error' in order; included configurations: all evaluated in order"),
+    (M, "C14.filter_inner_lazy", "_filter with its evaluation order spelled out, as an equation for every node of every tree"),
+    (M, "C14.last_rule_wins_lazy", "last rule wins on texts needing only what the code needs: constructors and with_env return, file covered lazily, r applies, LATER rules skipped; rules before r may raise"),
+    (M, "C14.rule_raise_lazy", "if the path matcher of r raises e (later rules skipped, covered lazily) filter raises e"),
+    (M, "C14.default_error_lazy", "covered lazily and every rule text skipped: error"),
+    # ---- round 4: key texts, [[filters]] tables
+    (M, "C14.re_key_text", "a `re:` key compiles exactly the text after the marker (key[3:]), whatever it starts with"),
+    (M, "C14.literal_key_text", "a literal key compiles re.escape(key) + '$'; un-escaping gives the key back"),
+    (M, "C14.literal_branch_is_translation", "the literal branch of the model is the translation of the real compiled pattern: the recogniser used by the c14.keytext correspondence accepts exactly escapedDollar key"),
+    (M, "C14.toml_filters_spec", "TOMLParser.processFilters = add_rules of the [[filters]] tables as written (string path = one-element list)"),
+    # ---- round 4: legacy filter.py, graph guards, set_locales(deep)
+    (M, "C14.filter_py_normalisation", "filter_: raising -> error, True -> error, False -> ignore, 'report' -> warning, the three action strings and None pass, other values -> AssertionError, unhashable -> TypeError"),
+    (M, "C14.filter_py_wins", "a configuration with filter_py answers (after the locale test) with the normalised callable result; rules, included and excluded configurations are not consulted"),
+    (M, "C14.included_py_dead", "the callable of an included configuration is never consulted (parents call child._filter)"),
+    (M, "C14.excluded_py_consulted", "the callable of an excluded configuration is consulted through its public filter on the file"),
+    (M, "C14.filterp_no_py", "without any callable the extended model is the model of Paths/Filter.lean"),
+    (M, "C14.py_rules_exclusive", "set_filter_py asserts no rules, add_rules asserts no callable: a built configuration has a callable or rules, never both"),
+    (M, "C14.add_child_exclude_guards", "add_child / exclude raise ExcludeError exactly for (sub)configurations that declare excludes"),
+    (M, "C14.set_locales_deep_spec", "set_locales(deep=True) reaches the included configurations only; locales gate the public entry, _filter is unchanged"),
 ]
 PARTIAL = [
     "composed model (FiltM): filterm_eq_filter is one-directional by necessity (lazy code may return where the eager "
-    "instantiation raises: ExamplesM.lazy_witness); raising configurations are covered by the correspondence stream only",
+    "instantiation raises: ExamplesM.lazy_witness); round 4 adds the exact evaluation order as equations/equivalences "
+    "(filter_inner_lazy, rule_scan_lazy, covered_test_lazy, cache_is_eager) and text-level theorems of lazy strength for "
+    "configurations without included/excluded ones (last_rule_wins_lazy, rule_raise_lazy, default_error_lazy); for "
+    "trees the lazy characterisation is the node equation, not restated over texts",
+    "Observer model: tuple keys (gettext msgid/msgctxt) are outside the filter model (projectFilter answers the default for them; "
+    "the comparer model produces str data only)",
+    "ProjectConfig.same is judged by an oracle probe only (no Lean model: it needs Matcher.__eq__ and re.Pattern equality)",
     "concrete pattern classes proved exactly: literal texts and dir*suffix (no * / { in dir and suffix, dir non-empty), any "
     "environment/root/locale; {locale}: binding for every pattern, captured value for EnvOK environments and locale texts "
     "without specials; other pattern shapes (**, several wildcards, nested variables) reach verdict level through "
@@ -81,19 +122,30 @@ LEVEL_TEXT = ("Lean 4 theorems over an executable transliteration of ProjectConf
               "filterm_eq_filter proves the composed verdict equal to the abstract one, so all theorems hold for real pattern texts, and "
               "the claims are restated over concrete patterns (literal paths, dir/*.ext, {locale}); the composed model is tied to the real "
               "ProjectConfig.filter by its own correspondence stream that sends pattern texts (no table from the real Matcher), including "
-              "rooted configurations, Android locale codes and matchers that raise")
+              "rooted configurations, Android locale codes and matchers that raise; "
+              "ROUND 4: composed with the full Observer/ObserverList model of C10 and the key loop of ContentComparer.compare at every quiet level "
+              "(verdicts, counts, merged keys and summaries proved independent of quiet, tied by real compare runs at quiet 0..4 with and without merge); "
+              "the evaluation order (lazy any(), reverse scan, eager cache/children) characterised by equations and equivalences; the key text handed to "
+              "re.compile (marker slice, re.escape, '$') modelled on texts and diffed against rule['key'].pattern; TOMLParser.processFilters modelled and "
+              "tied through real TOML files; legacy filter.py (set_filter_py/filter_) with the callable as an abstract function, the asserts, ExcludeError "
+              "guards and set_locales(deep) modelled, proved and tied by generated filter functions")
 LEVEL_NOTE = ("trusted: Lean kernel; hand-written models CLModel/Paths/Filter.lean, CLModel/Paths/FilterM.lean, CLModel/Paths/Matcher.lean and "
               "CLModel/Compare/MissingFilter.lean (validated by correspondence); in the `c14.filter` / `c14.compare` streams path matching "
               "(Matcher) is an abstract predicate filled from the real Matcher per case; in the composed `c14.filterm` stream Matcher is NOT "
               "abstract: the driver receives the pattern texts, environment and root and runs the model of Matcher (parse, with_env, regex "
               "construction, Rx engine), exceptions compared by class; Pattern.root is passed as Matcher stores it (mozpath.abspath(root)+'/': "
               "the os.path normalisation is outside the model); the oracle uses its own few-line pattern semantics; user key regexes run on the Rx "
-              "engine (validated differentially); legacy filter.py configurations and files with locale None are outside the model "
-              "(None-locale files are judged by the oracle only); literal keys also match the key followed by one newline (proved, "
+              "engine (validated differentially); files with locale None are outside the filter model (judged by the oracle only; in the "
+              "Observer composition a None locale answers ignore); a legacy filter.py callable is an abstract function into the outcome classes "
+              "filter_ distinguishes (generated table-driven functions in the `c14.filterp` correspondence); the `c14.compareq` stream takes the "
+              "key order (AddRemove, C20), word counts and checker messages as inputs of the model; literal keys also match the key followed by one newline (proved, "
               "probed, not judged: entity keys contain no newline); configurations are built completely before they are queried "
               "(add_paths/add_rules after a filter() call leave a stale cache)")
 TECHNIQUE = "Lean 4 proof (model = reference interpreter) + differential correspondence on real ProjectConfig/ContentComparer + independent Python oracle"
 TRUSTED = [
+    "hand-written models CLModel/Compare/FilterObserver.lean (key loop of ContentComparer.compare over CLModel/Compare/Observer.lean; tied by `c14.compareq` at quiet 0..4), "
+    "CLModel/Paths/FilterPy.lean (filter_py, graph guards, set_locales(deep); tied by `c14.filterp`), processFiltersM (tied by `c14.filtert` on TOML files parsed by the real TOMLParser), "
+    "compiledKeyText / reEscape (tied by `c14.keytext` against rule['key'].pattern)",
     "hand-written model CLModel/Paths/Filter.lean of ProjectConfig (tied by the `c14.filter` correspondence)",
     "hand-written model CLModel/Compare/MissingFilter.lean of the missing-entity branch (tied by the `c14.compare` correspondence)",
     "hand-written model CLModel/Paths/FilterM.lean (composition with CLModel/Paths/Matcher.lean; tied by the `c14.filterm` correspondence on pattern texts)",
@@ -103,7 +155,8 @@ TRUSTED = [
 ASSUMPTIONS = [
     "configurations are completely built (paths, rules, children, excludes, locales) before the first filter() call",
     "entity keys contain no newline; file.locale is a string for the model (None is judged by the oracle: ignore)",
-    "filter_py (legacy filter.py) is not set",
+    "a legacy filter.py callable is a function of (module, path, entity) into the outcome classes filter_ distinguishes "
+    "(raises / True,1 / False,0 / str / None / unhashable / other hashable); python -O (asserts stripped) is not considered",
 ]
 
 LOCS = ["de", "fr", "ja"]
@@ -321,6 +374,268 @@ def gen_compare(rng):
 
 
 
+
+# ------------------------------------------------------------------ round 4: quiet level x filter x comparer
+OBS_KEYS = ["obsolete1", "zzz", "old_key"]
+
+
+def gen_compareq(rng, directed=None):
+    """[specs, locale, rel, ref_items, l10n_items, fmt]: small files with missing AND obsolete keys, Junk, a printf
+    mismatch (checker error), under 1-2 observers whose configurations have key rules of all three actions"""
+    rel, fmt = rng.choice(CMP_RELS)
+    if rng.random() < 0.5:
+        rel, fmt = CMP_RELS[0]
+    locale = rng.choice(LOCS)
+    ref_keys = rng.sample(KEYPOOL, rng.randrange(3, 8))
+    ref_items = [["k", k, "value %s" % k] for k in ref_keys]
+    pf = None
+    if fmt == "properties" and rng.random() < 0.5:
+        pf = rng.choice(ref_keys)
+        for it in ref_items:
+            if it[1] == pf:
+                it[2] = "%d things"
+    l10n_items = []
+    for it in ref_items:
+        if rng.random() < (0.8 if it[1] == pf else 0.4):
+            v = it[2] if rng.random() < 0.5 else "wert " + it[1]
+            if it[1] == pf:
+                v = rng.choice(["%d Dinge", "%s Dinge", "Dinge"])
+            l10n_items.append(["k", it[1], v])
+    obs = rng.sample(OBS_KEYS, rng.choice([0, 1, 1, 2, 2, 3]))
+    for k in obs:
+        l10n_items.insert(rng.randrange(len(l10n_items) + 1), ["k", k, "alt %s" % k])
+    x = rng.random()
+    if x < 0.2:
+        l10n_items.insert(rng.randrange(len(l10n_items) + 1), ["junk"])
+    elif x < 0.3:
+        ref_items.insert(rng.randrange(1, len(ref_items) + 1), ["junk"])
+    y = rng.random()
+    nobs = 1 if y < 0.8 else 2
+    specs = []
+    base = PR.ROOT_PLACEHOLDER
+    every = [["var", "l10n_base"], "/", V, "/", SS]
+    for _ in range(nobs):
+        s = gen_cfg(rng, 1, rng.choice([1, 1, 2]), True, base, [rel, rel, rel, "browser/zz.properties"], cover=True)
+        if s["locales"] is not None and locale not in s["locales"] and rng.random() < 0.85:
+            s["locales"].append(locale)
+        # key rules of all three actions aimed at the keys of THIS comparison (missing and obsolete ones)
+        pool_ = [it[1] for it in ref_items if it[0] == "k"] + obs
+        for _ in range(rng.choice([1, 2, 3, 4])):
+            k = rng.choice(pool_ + ["re:o", "re:.*e", "re:(one|two|zzz)$", "re:[a-z]+\\d", "re:ob"])
+            if rng.random() < 0.2:
+                k = [k, rng.choice(pool_)]
+            s["rules"].insert(rng.randrange(len(s["rules"]) + 1),
+                              {"path": every, "key": k, "action": rng.choice(["error", "warning", "ignore", "ignore"])})
+        specs.append(s)
+    if y > 0.95:
+        specs[-1] = None
+    return [specs, locale, rel, ref_items, l10n_items, fmt]
+
+
+def directed_compareq():
+    """the scenario of the regression this stream was added for: ignored / warning-level missing keys and an
+    ignored obsolete key under key rules, to be compared at every quiet level"""
+    base = PR.ROOT_PLACEHOLDER
+    every = [base + "/", V, "/", SS]
+    rules = [{"path": every, "key": "two", "action": "ignore"}, {"path": every, "key": "three", "action": "warning"},
+             {"path": every, "key": "re:obs", "action": "ignore"}, {"path": every, "key": ["four", "zzz"], "action": "warning"}]
+    spec = node([{"l10n": every}], rules, locales=("de",))
+    ref = [["k", k, "value %s" % k] for k in ("one", "two", "three", "four", "five")]
+    l10n = [["k", "one", "value one"], ["k", "obsolete1", "x"], ["k", "zzz", "y"]]
+    out = []
+    for rel, fmt in CMP_RELS:
+        out.append([[spec], "de", rel, ref, l10n, fmt])
+    out.append([[spec, None], "de", CMP_RELS[0][0], ref, l10n, "properties"])
+    return out
+
+
+# ------------------------------------------------------------------ round 4: [[filters]] tables in real TOML files
+R_ = PR.ROOT_PLACEHOLDER
+LOCS_T = ["de", "fr", "ja"]
+RELS_T = ["browser/a.ftl", "browser/sub/c.ftl", "toolkit/a.ftl"]
+# literal keys and `re:` keys; the expressions after the marker begin with r, e, ':' or repeat the marker itself
+T_LIT = ["one", "two", "re", "r:", "e:x", "o.e", "a+b", "one$", "two ", "re :x", "rex", ""]
+T_RE = ["re:one", "re:re", "re:r", "re:e", "re::", "re::x", "re:re:x", "re:e.*l$", "re:r?e", "re:.*", "re:(one|two)$",
+        "re:\\w+$", "re:o.e", "re:ex", "re:r:", "re:[re:]+$", "re:", "re:e", "re:rex?"]
+ENTS_T = [None, "one", "two", "re", "r", "e", "external", ":x", "re:x", "o.e", "oxe", "a+b", "one$", "rex", "r:", "e:x", ""]
+
+
+def files_t():
+    fs = []
+    for l in LOCS_T:
+        for base in (R_ + "/", R_ + "/l10n/", R_ + "/c0/", "/src/"):
+            for r in RELS_T[:2] if base != "/src/" else RELS_T:
+                fs.append({"fullpath": base + l + "/" + r, "locale": l})
+    fs.append({"fullpath": R_ + "/de/browser/a.ftl", "locale": "fr"})
+    return fs
+
+
+def gen_key_t(rng):
+    x = rng.random()
+    if x < 0.3:
+        return rng.choice(T_LIT)
+    if x < 0.75:
+        return rng.choice(T_RE)
+    return [rng.choice(T_LIT + T_RE) for _ in range(rng.randrange(1, 4))]
+
+
+def gen_pat_t(rng, env, rooted=True):
+    x = rng.random()
+    if rooted and x < 0.65:
+        out = [rng.choice(["", "", "l10n/"])]
+        if "rel_base" in env and rng.random() < 0.5:
+            out = [["var", "rel_base"], "/"]
+    elif "l10n_base" in env and x < 0.85:
+        out = [["var", "l10n_base"], "/"]
+    else:
+        out = ["/src/"]
+    y = rng.random()
+    out.append(V if y < 0.85 else "de")
+    rel = rng.choice(RELS_T)
+    d, f = rel.rsplit("/", 1)
+    top = d.split("/")[0]
+    ext = f.rsplit(".", 1)[1]
+    rest = rng.choice([["/", SS], ["/", SS], ["/" + top + "/", SS], ["/", S, "/" + f], ["/", SSD, f], ["/" + top + "/", S, "." + ext],
+                       ["/" + rel], ["/", SSD, S, "." + ext], ["/" + d + "/", S]])
+    toks = []
+    for t in out + rest:
+        if t == "":
+            continue
+        if isinstance(t, str) and toks and isinstance(toks[-1], str):
+            toks[-1] += t
+        else:
+            toks.append(t)
+    return toks
+
+
+def gen_cfg_t(rng, depth, maxdepth, parser_env, top=True, rel="l10n.toml", uid=None):
+    uid = [0] if uid is None else uid          # file and directory names are unique in the whole tree
+    file_env = {}
+    if rng.random() < 0.5:
+        file_env["l10n_base"] = "/src"
+    if rng.random() < 0.4:
+        file_env["rel_base"] = "l10n"
+    env = dict(file_env, **parser_env)
+    locales = None if rng.random() < (0.1 if top else 0.3) else [l for l in LOCS_T if rng.random() < 0.8]
+    spec = {"locales": locales, "file_env": file_env, "paths": [], "rules": [], "children": [], "excludes": [], "toml_rel": rel}
+    for i in range(rng.choice([1, 1, 2, 2, 3])):
+        p = {"l10n": gen_pat_t(rng, env)}
+        if i == 0 and rng.random() < 0.6:
+            p["l10n"] = rng.choice([[V, "/", SS], ["l10n/", V, "/", SS], ["/src/", V, "/", SS]])
+        if rng.random() < 0.25:
+            p["locales"] = [l for l in LOCS_T if rng.random() < 0.6]
+        if rng.random() < 0.3:
+            p["reference"] = rng.choice(["/src/en-US/**", "en-US/**", "{l10n_base}/en-US/*.ftl"]) if "l10n_base" in env else "/src/en-US/**"
+        if rng.random() < 0.2:
+            p["test"] = ["android-dtd"]
+        spec["paths"].append(p)
+    for _ in range(rng.choice([1, 2, 2, 3, 4, 5])):
+        r = {"action": rng.choice(["error", "warning", "warning", "ignore", "ignore"])}
+        if rng.random() < 0.35:
+            r["path"] = [gen_pat_t(rng, env) for _ in range(rng.randrange(1, 4))]
+            r["path_is_list"] = True
+        else:
+            r["path"] = gen_pat_t(rng, env)
+            if rng.random() < 0.45:
+                r["path"] = spec["paths"][0]["l10n"]
+        if rng.random() < 0.7:
+            r["key"] = gen_key_t(rng)
+        spec["rules"].append(r)
+    if depth < maxdepth:
+        for i in range(rng.choice([0, 0, 1, 2])):
+            crel = rng.choice(["c%d/l10n.toml" % uid[0], "inc%d.toml" % uid[0]])
+            uid[0] += 1
+            spec["children"].append(gen_cfg_t(rng, depth + 1, maxdepth, parser_env, False, crel, uid))
+    if top:
+        for i in range(rng.choice([0, 0, 0, 1])):
+            spec["excludes"].append(gen_cfg_t(rng, depth + 1, maxdepth, parser_env, False, "ex%d/l10n.toml" % i, uid))
+    return spec
+
+
+def keytext_keys(ctx):
+    """rule keys for the text-level stream: every key of the pools, plus random literal keys over an alphabet with
+    all `re.escape` specials and the characters of the `re:` marker"""
+    rng = ctx.rng("c14", "keytext")
+    keys = list(dict.fromkeys(LIT_KEYS + RE_KEYS + CMP_LIT + CMP_RE + T_LIT + T_RE))
+    alpha = "re:ox1 .$+*?()[]{}|^\\-#&~\t" + "rrree::"
+    for _ in range(ctx.n(200, 3000)):
+        n = rng.choice([1, 2, 3, 3, 4, 5, 7])
+        k = "".join(rng.choice(alpha) for _ in range(n))
+        if k.startswith("re:"):
+            k = "re:" + re.escape(k[3:]) + rng.choice(["", "$", ".*", "?"])      # a valid expression after the marker
+        keys.append(k)
+    for tail in ("re", "e", ":", "r", "re:", "e:", ":re", "r.", "external", "rest$", ":x|y"):
+        keys.append("re:" + tail)
+    return list(dict.fromkeys(keys))
+
+
+def keytext_entities(key):
+    body = key[3:] if key.startswith("re:") else key
+    ents = [key, key + "x", key[:-1], "x" + key, key + "\n", body, body + "x", body[1:], "re:" + body, "e:" + body,
+            "one", "two", "re", "r", "e", ":", "external", "rest", ""]
+    return list(dict.fromkeys(ents))
+
+
+# ------------------------------------------------------------------ round 4: legacy filter.py mixed with rules
+PY_OUTS = ["T", "F", "1", "0", "1.0", "N", "R0", "R1", "R2", "U", "U2", "O", "O2", "s:error", "s:ignore", "s:warning", "s:report",
+           "s:Error", "s:", "s:true", "s:report "]
+PY_COMMON = ["T", "F", "s:report", "s:error", "s:ignore", "s:warning", "N", "R0"]
+ENTS_P = [None, "one", "two", ""]
+
+
+def files_p():
+    fs = []
+    for l in LOCS:
+        for r in RELS[:4]:
+            top, rest = r.split("/", 1)
+            fs.append({"fullpath": fp(l, r), "locale": l, "module": top, "file": rest})
+        fs.append({"fullpath": fp(l, RELS[4]), "locale": l, "module": None, "file": RELS[4]})
+    fs.append({"fullpath": fp("de", RELS[0]), "locale": "fr", "module": "browser", "file": "a.ftl"})
+    fs.append({"fullpath": fp("und", RELS[0]), "locale": "und", "module": None, "file": RELS[0]})
+    fs.append({"fullpath": "/other/de/browser/a.ftl", "locale": "de", "module": "browser", "file": "a.ftl"})
+    return fs
+
+
+def gen_py(rng):
+    out = lambda: rng.choice(PY_COMMON) if rng.random() < 0.75 else rng.choice(PY_OUTS)
+    clauses = []
+    for _ in range(rng.choice([0, 1, 2, 2, 3])):
+        clauses.append({"module": rng.choice(["*", "*", "-", "browser", "toolkit"]),
+                        "path": rng.choice(["", "", "a.ftl", "sub/", ".properties", "b"]),
+                        "entity": rng.choice(["*", "*", "+", "-", "=one", "=two", "="]), "out": out()})
+    return {"default": out(), "clauses": clauses}
+
+
+def gen_cfg_p(rng, depth, maxdepth, role="top"):
+    spec = gen_cfg(rng, maxdepth, maxdepth, False)          # a leaf: own paths / rules / locales, no descendants
+    spec["env"] = {}
+    spec["paths"] = [dict(p, l10n=gen_pat(rng, {})) for p in spec["paths"]]
+    for r in spec["rules"]:
+        r["path"] = [gen_pat(rng, {}) for _ in r["path"]] if r.get("path_is_list") else gen_pat(rng, {})
+    if spec["paths"] and rng.random() < 0.6:
+        spec["paths"][0]["l10n"] = ["/src/", V, "/", SS]
+    spec["py"], spec["order"] = None, "r"
+    if rng.random() < {"top": 0.5, "child": 0.3, "exclude": 0.6}[role]:
+        spec["py"] = gen_py(rng)
+        spec["order"] = rng.choice(["p", "p", "p", "p", "pr", "rp", "rp"])
+        if spec["order"] == "p" or (spec["order"] == "rp" and rng.random() < 0.7):
+            spec["rules"] = []
+    if depth < maxdepth:
+        for _ in range(rng.choice([0, 0, 1, 1, 2])):
+            spec["children"].append(gen_cfg_p(rng, depth + 1, maxdepth, "child"))
+    if role == "top" or rng.random() < 0.06:
+        for _ in range(rng.choice([0, 0, 1, 1, 2])):
+            spec["excludes"].append(gen_cfg_p(rng, depth + 1, maxdepth, "exclude"))
+    return spec
+
+
+def gen_posts(rng):
+    if rng.random() < 0.65:
+        return []
+    ls = None if rng.random() < 0.15 else [l for l in LOCS + ["und"] if rng.random() < 0.6]
+    return [[rng.choice(["D", "D", "S"]), ls]] + ([] if rng.random() < 0.8 else [["S", ["de"]]])
+
+
 # ------------------------------------------------------------------ composed stream only: roots, Android codes, raising matchers
 LOCS_M = ["de", "fr", "he-IL", "sr-Latn"]
 RELS_M = ["browser/a.ftl", "browser/sub/c.ftl", "toolkit/a.ftl"]
@@ -467,7 +782,12 @@ def run(ctx):
                 "wildcard/variable paths, path lists, literal/regex/list keys); every case answers ALL (file, entity) queries of its universe on one "
                 "object in shuffled file order and again on a fresh object. compare: seeded random reference/localized file pairs "
                 "(properties, ftl, dtd, ini) under 1-2 observers with generated configurations. non-trivial = a case whose verdict vector "
-                "contains at least two different verdicts; distinct = distinct (case, verdict vector)")
+                "contains at least two different verdicts; distinct = distinct (case, verdict vector). "
+                "Round 4: compareq = directed + seeded random file pairs (missing, obsolete, Junk, printf mismatch) under key rules of all three actions, each "
+                "compared at quiet 0..4 with and without merge; toml = seeded random configuration trees written as TOML files with [[filters]] tables "
+                "(path string/list, key string/list/re:, all actions, includes/excludes, [env], parser env) parsed by TOMLParser; keytext = every key of "
+                "the pools plus random literal keys over the re.escape specials and the marker characters; filterp = seeded random trees with generated "
+                "filter.py functions (all outcome classes), both build orders, nested excludes, set_locales deep/shallow, ProjectConfig.same probes")
     rng = ctx.rng("c14")
     cases = []
     for spec, files, ents in exhaustive_rule_lists(ctx):
@@ -623,6 +943,153 @@ def run(ctx):
                 mo = re.sub(r" M=\S*", " M=n/a", mo)
             if mo != r["impl"]:
                 out.disagreements.append({"op": "compare", "case": cargs[i], "impl": r["impl"], "model": mo})
+    # ---------------------------------------------------------------- round 4: the quiet level (0..4) x merge on/off
+    rngq = ctx.rng("c14", "compareq")
+    qargs = directed_compareq() + [gen_compareq(rngq) for _ in range(ctx.n(110, 2500))]
+    qres = pool.pmap("impl.project", "compareq_case", qargs, timeout=60.0, batch=8)
+    qres = [_retry(PR.compareq_case, a, r) for a, r in zip(qargs, qres)]
+    qlines, qkeep = [], []
+    for i, r in enumerate(qres):
+        if r is None or "r" not in r:
+            out.violations.append({"what": "compareq case raised %s" % (r,), "input": {"case": qargs[i]}, "op": "compareq-crash"})
+            continue
+        qkeep.append(i)
+        qlines += [r["r"]["lines"][str(q)] for q in range(5)] + [r["r"]["flines"][str(q)] for q in range(5)]
+    qmodel = C.run_driver_parallel(qlines) if ctx.model_ok else [None] * len(qlines)
+    for j, i in enumerate(qkeep):
+        r = qres[i]["r"]
+        out.evaluations += 10
+        out.count("compareq.classes=%d" % r["classes"])
+        for ch in set(r["events"]):
+            out.count("compareq.event." + ch)
+        if r["classes"] >= 2:
+            out.nontrivial.add(("cmpq", digest(r["lines"]["0"]), r["impl"][:200]))
+        if r["classes"] == 3 and "o" in r["events"] and sum(1 for s_ in out.samples if s_.get("op") == "compareq") < 2:
+            out.samples.append({"op": "compareq", "case": qargs[i][1:], "events": r["events"], "verdicts": r["verdicts"],
+                                "quiet0": r["canon"]["0m"][:160], "quiet2": r["canon"]["2m"][:160]})
+        for msg in r["oracle"][:3]:
+            out.violations.append({"what": "compare at a quiet level: " + msg, "op": "compareq", "input": {"case": qargs[i]}})
+        if r["oracle"]:
+            continue
+        for q in range(5):
+            mo = qmodel[10 * j + q]
+            if mo is None:
+                continue
+            if mo != r["canon"]["%dm" % q] or re.sub(r" M=\S*", " M=n/a", mo) != r["canon"]["%dn" % q]:
+                out.disagreements.append({"op": "compareq", "quiet": q, "case": qargs[i], "impl": r["canon"]["%dm" % q][:600],
+                                          "impl_nomerge": r["canon"]["%dn" % q][:600], "model": mo[:600]})
+                break
+            mf = qmodel[10 * j + 5 + q]
+            out.count("filesq.verdict." + r["fcanon"][str(q)].split(" ")[1])
+            if mf != r["fcanon"][str(q)]:
+                out.disagreements.append({"op": "filesq", "quiet": q, "case": qargs[i], "impl": r["fcanon"][str(q)][:600], "model": mf[:600]})
+                break
+    # ---------------------------------------------------------------- round 4: [[filters]] through the real TOMLParser
+    rngt = ctx.rng("c14", "toml")
+    ft = files_t()
+    targs = []
+    for k in range(ctx.n(160, 4000)):
+        penv = {"l10n_base": "/src"} if k % 5 == 0 else ({"rel_base": "l10n"} if k % 7 == 0 else {})
+        targs.append([gen_cfg_t(rngt, 1, rngt.choice([1, 1, 2, 3]), penv), ft, ENTS_T, penv])
+    tres = pool.pmap("impl.project", "toml_case", targs, timeout=30.0, batch=16)
+    tres = [_retry(PR.toml_case, a, r) for a, r in zip(targs, tres)]
+    tlines, tkeep = [], []
+    for i, r in enumerate(tres):
+        if r is None or "r" not in r:
+            out.violations.append({"what": "toml case raised %s" % (r,), "input": {"spec": targs[i][0]}, "op": "toml-crash"})
+            continue
+        tlines.append(r["r"]["line_m"])
+        tkeep.append(i)
+    tmodel = C.run_driver_parallel(tlines) if ctx.model_ok else [None] * len(tlines)
+    ne = len(ENTS_T)
+    for j, i in enumerate(tkeep):
+        r = tres[i]["r"]
+        impl = r["implm"]
+        out.evaluations += len(impl)
+        out.count("toml.rules=%d" % min(r.get("nrules", 0), 6))
+        if len(set(impl)) >= 2:
+            out.nontrivial.add(("toml", digest(r["line_m"]), impl))
+        bad = False
+        for q, exp, got, _ in r["oracle"][:3]:
+            bad = True
+            out.violations.append({"what": "TOML [[filters]]: verdict %s, reference semantics say %s" % (got, exp), "op": "toml",
+                                   "input": {"spec": targs[i][0], "parser_env": targs[i][3], "file": ft[q // ne], "entity": ENTS_T[q % ne]},
+                                   "expected": exp, "got": got})
+        mo = tmodel[j]
+        if mo is not None and not bad and mo != impl:
+            qs = [q for q, (a, b) in enumerate(zip(impl, mo)) if a != b] if len(mo) == len(impl) else []
+            out.disagreements.append({"op": "toml", "spec": targs[i][0], "impl": impl, "model": mo, "msg": r.get("msg"),
+                                      "first_query": ({"file": ft[qs[0] // ne], "entity": ENTS_T[qs[0] % ne]} if qs else None)})
+    # ---------------------------------------------------------------- round 4: the key TEXT _compile_rule compiles
+    klines, kres = [], []
+    for k in keytext_keys(ctx):
+        try:
+            r = PR.keytext_case(k, keytext_entities(k))
+        except re.error:
+            out.count("keytext.invalid-expression")
+            continue
+        except Exception as ex:   # noqa
+            if type(ex).__name__ == "Unsupported":
+                out.count("keytext.untranslatable")
+                continue
+            out.violations.append({"what": "_compile_rule raised %s: %s" % (type(ex).__name__, ex), "op": "keytext-crash", "input": {"key": k}})
+            continue
+        kres.append((k, r))
+        klines.append(r["line"])
+    kmodel = C.run_driver_parallel(klines) if ctx.model_ok else [None] * len(klines)
+    for (k, r), mo in zip(kres, kmodel):
+        out.evaluations += len(r["answers"])
+        out.count("keytext." + ("re" if k.startswith("re:") else "literal"))
+        if len(set(r["answers"])) >= 2:
+            out.nontrivial.add(("key", k, r["answers"]))
+        ents = keytext_entities(k)
+        for i_ in r["oracle"][:2]:
+            out.violations.append({"what": "rule key %r (compiled as %r) %s entity %r" % (
+                k, r["pattern"], "accepts" if r["answers"][i_] == "1" else "rejects", ents[i_]),
+                "op": "keytext", "input": {"key": k, "entity": ents[i_]}})
+        if mo is not None and not r["oracle"] and mo != r["canon"]:
+            out.disagreements.append({"op": "keytext", "key": k, "impl": r["canon"], "model": mo})
+    # ---------------------------------------------------------------- round 4: legacy filter.py x rules, graph guards, set_locales(deep), same()
+    rngp = ctx.rng("c14", "filterp")
+    fpf = files_p()
+    pargs = [[gen_cfg_p(rngp, 1, rngp.choice([1, 2, 2, 3])), fpf, ENTS_P, gen_posts(rngp)] for _ in range(ctx.n(400, 8000))]
+    pres = pool.pmap("impl.project", "filterp_case", pargs, timeout=30.0, batch=24)
+    pres = [_retry(PR.filterp_case, a, r) for a, r in zip(pargs, pres)]
+    plines, pkeep = [], []
+    for i, r in enumerate(pres):
+        if r is None or "r" not in r:
+            out.violations.append({"what": "filterp case raised %s" % (r,), "input": {"spec": pargs[i][0]}, "op": "filterp-crash"})
+            continue
+        plines.append(r["r"]["line"])
+        pkeep.append(i)
+    pmodel = C.run_driver_parallel(plines) if ctx.model_ok else [None] * len(plines)
+    ne = len(ENTS_P)
+    for j, i in enumerate(pkeep):
+        r = pres[i]["r"]
+        impl = r["impl"]
+        out.evaluations += len(impl)
+        if impl.startswith("B"):
+            out.count("filterp.build." + impl)
+        else:
+            for ch in set(impl):
+                out.count("filterp.answer." + ch)
+        if len(set(impl)) >= 2:
+            out.nontrivial.add(("py", digest(r["line"]), impl))
+        bad = False
+        for q, exp, got in r["oracle"][:3]:
+            bad = True
+            out.violations.append({"what": "filter with legacy filter.py: answer %s, documented behaviour %s" % (got, exp), "op": "filterp",
+                                   "input": {"spec": pargs[i][0], "posts": pargs[i][3],
+                                             "file": fpf[q // ne] if q >= 0 else None, "entity": ENTS_P[q % ne] if q >= 0 else None},
+                                   "expected": exp, "got": got})
+        for msg in r["same"][:2]:
+            bad = True
+            out.violations.append({"what": "ProjectConfig.same: " + msg, "op": "filterp-same", "input": {"spec": pargs[i][0], "posts": pargs[i][3]}})
+        mo = pmodel[j]
+        if mo is not None and not bad and mo != impl:
+            qs = [q for q, (a, b) in enumerate(zip(impl, mo)) if a != b] if len(mo) == len(impl) else []
+            out.disagreements.append({"op": "filterp", "spec": pargs[i][0], "posts": pargs[i][3], "impl": impl, "model": mo,
+                                      "first_query": ({"file": fpf[qs[0] // ne], "entity": ENTS_P[qs[0] % ne]} if qs else None)})
     out.violations = [v for v in out.violations if not v.get("finding")][:200] + [v for v in out.violations if v.get("finding")][:20]
     out.disagreements = out.disagreements[:200]
     return out
@@ -642,6 +1109,18 @@ def replay(payload):
         elif v.get("op") == "compare":
             r = PR.compare_case(*i["case"])
             res.append({"input": i, "result": r["impl"], "oracle": r["oracle"], "violates": bool(r["oracle"])})
+        elif v.get("op") in ("filterp", "filterp-same"):
+            r = PR.filterp_case(i["spec"], files_p(), ENTS_P, i.get("posts") or [])
+            res.append({"input": i, "oracle": r["oracle"][:3], "same": r["same"], "violates": bool(r["oracle"] or r["same"])})
+        elif v.get("op") == "keytext":
+            r = PR.keytext_case(i["key"], [i["entity"]])
+            res.append({"input": i, "pattern": r["pattern"], "violates": bool(r["oracle"])})
+        elif v.get("op") == "toml":
+            r = PR.toml_case(i["spec"], [i["file"]], [i["entity"]], i.get("parser_env") or {})
+            res.append({"input": i, "implementation": r["implm"], "oracle": r["oracle"], "violates": bool(r["oracle"])})
+        elif v.get("op") == "compareq":
+            r = PR.compareq_case(*i["case"])
+            res.append({"input": i, "oracle": r["oracle"], "violates": bool(r["oracle"])})
         elif v.get("op") == "filter-history":
             r = PR.filter_case(i["spec"], [i["file"]], [i["entity"]], [0])
             res.append({"input": i, "violates": bool(r["history"] or r["oracle"])})
